@@ -27,31 +27,22 @@ theorem vkw_roundtrip_general (w : VKW) (h : w.sig.Canon) : decVKW (vkwItem w) =
 /-- re-encoding the decoded witness gives the same item -/
 theorem vkw_reencode (w : VKW) : vkwItem (decodedVKW w) = vkwItem w := rfl
 
-/-- the property as stated (`from_cbor(to_cbor(w)) == w` with the library's own `==`) for every witness that passes
-`validate` … -/
-def vkw_roundtrip_goal : Prop :=
-  ∀ w : VKW, vkwValid w = true → w.sig.Canon → ∃ w', decVKW (vkwItem w) = .ok w' ∧ VKW.pyEq w' w = true
+/-- **`from_cbor(to_cbor(w)) == w` for every constructed witness** — of every key class (`VerificationKey`, payment,
+stake, pool, extended or not) and whatever envelope the key was handed over with: `__post_init__` reduces every
+verification key to the plain key, which is what decoding returns.  The hypothesis is `validate` (what `to_cbor` asks:
+a verification key class and a `bytes` signature; a witness holding a signing key cannot be serialized at all).  The
+decoded witness is the very same object, hence `==` … -/
+theorem vkw_roundtrip (k : KeyObj) (s : Prim) (h : vkwValid (mkVKW k s) = true) :
+    decVKW (vkwItem (mkVKW k s)) = .ok (mkVKW k s) := decVKW_constructed k s h
 
-/-- … holds when the key carries the default envelope of `VerificationKey` (empty type and description), which is
-what `to_non_extended()`, `VerificationKey(payload)` and the decoder itself produce … -/
-theorem vkw_roundtrip_partial (w : VKW) (h : w.sig.Canon) (ht : w.vkey.keyType = "") (hd : w.vkey.description = "") :
-    ∃ w', decVKW (vkwItem w) = .ok w' ∧ VKW.pyEq w' w = true := by
-  refine ⟨decodedVKW w, decVKW_vkwItem w h, ?_⟩
-  simp [VKW.pyEq, KeyObj.pyEq, decodedVKW, mkKey, pyOr, KeyClass.keyType, ht, hd]
+/-- … under the library's own `Key.__eq__` (payload, description, type) -/
+theorem vkw_roundtrip_pyeq (k : KeyObj) (s : Prim) (h : vkwValid (mkVKW k s) = true) :
+    ∃ w', decVKW (vkwItem (mkVKW k s)) = .ok w' ∧ VKW.pyEq w' (mkVKW k s) = true :=
+  ⟨_, decVKW_constructed k s h, pyEq_refl _⟩
 
-/-- a witness built from a `PaymentVerificationKey` (as `TransactionBuilder` / `Transaction` signing code builds them) -/
-def exPaymentWitness : VKW :=
-  mkVKW (mkKey .paymentVerification (List.replicate 32 1)) (.bytes (List.replicate 64 2))
-
-/-- … and FAILS for a witness whose key is a `PaymentVerificationKey` (or any key with a type string): the decoded
-witness is not `==` the original -/
-theorem vkw_roundtrip_counterexample : ¬ vkw_roundtrip_goal := by
-  intro h
-  obtain ⟨w', h1, h2⟩ := h exPaymentWitness (by decide) trivial
-  rw [decVKW_vkwItem exPaymentWitness trivial] at h1
-  cases h1
-  revert h2
-  decide
+/-- every serializable constructed witness holds a plain `VerificationKey` with the default envelope -/
+theorem vkw_constructed_plain (k : KeyObj) (s : Prim) (h : vkwValid (mkVKW k s) = true) :
+    (mkVKW k s).vkey = mkKey .verification (mkVKW k s).vkey.payload := mkVKW_plain k s h
 
 /-- `__post_init__`: an `ExtendedVerificationKey` instance is cut to its first 32 bytes (and becomes a plain
 `VerificationKey`) … -/
@@ -59,9 +50,28 @@ theorem vkw_extended_truncated (k : KeyObj) (s : Prim) (h : k.cls.isExtVerificat
     (mkVKW k s).vkey = mkKey .verification (k.payload.take 32) := by
   simp [mkVKW, h, toNonExtended]
 
-/-- … a key of any other class is kept as it is, 64-byte payload or not (the test is on the class) … -/
-theorem vkw_other_kept (k : KeyObj) (s : Prim) (h : k.cls.isExtVerification = false) : (mkVKW k s).vkey = k := by
-  simp [mkVKW, h]
+/-- … every other `VerificationKey` instance — role-specific class or not, typed envelope or not (the key
+`SigningKey.to_verification_key()` returns is a `VerificationKey` carrying the signing key's envelope, renamed) —
+becomes the plain key of the same payload, 64 bytes or not (the test is on the class) … -/
+theorem vkw_verification_reduced (k : KeyObj) (s : Prim) (h1 : k.cls.isExtVerification = false)
+    (h2 : k.cls.isVerification = true) : (mkVKW k s).vkey = mkKey .verification k.payload := by
+  simp [mkVKW, h1, h2]
+
+/-- … and anything that is not a verification key is kept as it is (`validate` refuses it) -/
+theorem vkw_other_kept (k : KeyObj) (s : Prim) (h1 : k.cls.isExtVerification = false) (h2 : k.cls.isVerification = false) :
+    (mkVKW k s).vkey = k ∧ vkwValid (mkVKW k s) = false := by
+  simp [mkVKW, vkwValid, h1, h2]
+
+/-- the witness `TransactionBuilder.build_and_sign` makes: the key is `signing_key.to_verification_key()`, a
+`VerificationKey` (exact class) carrying the payment envelope -/
+def exBuilderKey : KeyObj :=
+  mkKey .verification (List.replicate 32 1) (some "PaymentVerificationKeyShelley_ed25519") (some "PaymentVerificationKeyShelley_ed25519")
+
+def exBuilderWitness : VKW := mkVKW exBuilderKey (.bytes (List.replicate 64 2))
+
+/-- a witness built from a `PaymentVerificationKey` -/
+def exPaymentWitness : VKW :=
+  mkVKW (mkKey .paymentVerification (List.replicate 32 1)) (.bytes (List.replicate 64 2))
 
 /-- … and the DECODER never cuts: the key on the wire is restored as a `VerificationKey` of the same bytes, whatever
 their number (and the signature as whatever item was there) -/
@@ -170,6 +180,39 @@ theorem ws_postinit_idempotent (L : Leaves N B D R) (a : WS N B D R) : mkWS L (m
 /-- every constructed witness set holds tagged sets in the five rebuilt fields — whatever was handed to the
 constructor (`list`, `OrderedSet`, `NonEmptyOrderedSet` with or without the tag) -/
 theorem ws_constructed_tagged (L : Leaves N B D R) (a : WS N B D R) : Tagged5 (mkWS L a) := mkWS_tagged5 L a
+
+/-- **a constructed witness set equals its own round trip, vkey witnesses included** (`==` of the dataclass: the
+five rebuilt fields come back as the very same sets, `bootstrap_witness` / `plutus_data` with the same elements, the
+redeemer map with the same entries).  `hv`: the vkey witnesses are constructed ones (`vkw_constructed_plain`); no
+hypothesis about witnesses that are written alike is needed any more: two witnesses that differ in the class or
+envelope of their key are the same element of the set. -/
+theorem ws_roundtrip_constructed (L : Leaves N B D R) (hL : L.Lawful) (a : WS N B D R) (h : WSOk (mkWS L a))
+    (hv : ∀ c, (mkWS L a).vkeys = some c → ∀ w ∈ c.elems, w.Plain) (hd : PlainSetsDistinct L (mkWS L a)) :
+    ∃ y, decWS L (wsItem L (mkWS L a)) = .ok y ∧ WS.PyEq y (mkWS L a) :=
+  ⟨_, decWS_wsItem L hL _ h, decodedWS_pyEq L a hv hd⟩
+
+/-- … and re-encodes to the same item -/
+theorem ws_reencode_constructed (L : Leaves N B D R) (a : WS N B D R)
+    (hv : ∀ c, (mkWS L a).vkeys = some c → ∀ w ∈ c.elems, w.Plain) (hd : PlainSetsDistinct L (mkWS L a)) :
+    wsItem L (decodedWS L (mkWS L a)) = wsItem L (mkWS L a) := wsItem_decodedWS_constructed L a hv hd
+
+/-- witnesses that differ only in the class / envelope of the key they were built from are ONE element of the set -/
+theorem vkw_same_element (k k' : KeyObj) (s : Prim) (hp : k.payload = k'.payload)
+    (h : vkwValid (mkVKW k s) = true) (h' : vkwValid (mkVKW k' s) = true)
+    (hx : k.cls.isExtVerification = k'.cls.isExtVerification) : vkwKey (mkVKW k s) = vkwKey (mkVKW k' s) := by
+  have e : (mkVKW k s).vkey.payload = (mkVKW k' s).vkey.payload := by
+    by_cases h1 : k.cls.isExtVerification = true
+    · have h1' : k'.cls.isExtVerification = true := hx ▸ h1
+      simp [mkVKW, h1, h1', toNonExtended, mkKey, hp]
+    · have h1' : ¬ k'.cls.isExtVerification = true := hx ▸ h1
+      by_cases h2 : k.cls.isVerification = true <;> by_cases h2' : k'.cls.isVerification = true <;>
+        simp [mkVKW, h1, h1', h2, h2', mkKey, hp]
+  have p := mkVKW_plain k s h
+  have p' := mkVKW_plain k' s h'
+  unfold VKW.Plain at p p'
+  simp only [vkwKey]
+  rw [p, p', e]
+  rfl
 
 /-- the same elements as a tagged set -/
 def retag {α : Type} (c : Coll α) : Coll α := .oset true c.elems
@@ -364,6 +407,36 @@ example : decRedeemer natLeaf (redeemerItem natLeaf exRedeemer) = .ok exRedeemer
 example : decRedeemer natLeaf (redeemerItem natLeaf (mkRedeemer 42 Option.none)) = .deser :=
   redeemer_untagged_not_decodable natLeaf ⟨fun _ => rfl⟩ _ rfl
 
+-- vkey witnesses: the builder's witness (typed envelope on a plain-class key), a payment-key witness and an extended one
+-- all hold the plain key and come back as themselves; the first two are the same element of a set
+example : exBuilderKey.keyType = "PaymentVerificationKeyShelley_ed25519" ∧ exBuilderWitness.vkey.keyType = "" ∧
+    exBuilderWitness.vkey.cls = .verification := by decide
+example : decVKW (vkwItem exBuilderWitness) = .ok exBuilderWitness := vkw_roundtrip _ _ (by decide)
+example : decVKW (vkwItem exPaymentWitness) = .ok exPaymentWitness := vkw_roundtrip _ _ (by decide)
+example : vkwKey exBuilderWitness = vkwKey exPaymentWitness := vkw_same_element _ _ _ rfl (by decide) (by decide) rfl
+example : (match decVKW (vkwItem (mkVKW (mkKey .stakeExtVerification (List.replicate 64 5)) (.bytes (List.replicate 64 6)))) with
+    | .ok w => w.vkey.payload == List.replicate 32 5 && w.vkey.cls == .verification && w.vkey.keyType == ""
+    | _ => false) = true := by decide +kernel
+
+-- the constructor turns `exArgs` into `exWS`, whose round trip is `==` it
+theorem exArgs_constructed : mkWS exLeaves exArgs = exWS := by rfl
+
+example : ∃ y, decWS exLeaves (wsItem exLeaves exWS) = .ok y ∧ WS.PyEq y exWS := by
+  have h := ws_roundtrip_constructed exLeaves exLeaves_lawful exArgs (exArgs_constructed ▸ exWS_ok)
+    (by
+      rw [exArgs_constructed]
+      intro c hc w hw
+      cases hc
+      simp only [Coll.elems, List.mem_cons, List.mem_nil_iff, or_false] at hw
+      rcases hw with rfl | rfl <;> rfl)
+    (by
+      rw [exArgs_constructed]
+      refine ⟨?_, ?_⟩
+      · intro xs hx; cases hx
+      · intro xs hx; cases hx)
+  rw [exArgs_constructed] at h
+  exact h
+
 -- key envelopes: a payment signing key file is read back, checked, and refused by the stake class
 example : fromJson .paymentSigning true (toJson (mkKey .paymentSigning (List.replicate 32 7))) =
     .ok (mkKey .paymentSigning (List.replicate 32 7)) :=
@@ -377,8 +450,13 @@ end Pyc.C01.WitnessCodec
 
 #print axioms Pyc.C01.WitnessCodec.vkw_roundtrip_general
 #print axioms Pyc.C01.WitnessCodec.vkw_reencode
-#print axioms Pyc.C01.WitnessCodec.vkw_roundtrip_partial
-#print axioms Pyc.C01.WitnessCodec.vkw_roundtrip_counterexample
+#print axioms Pyc.C01.WitnessCodec.vkw_roundtrip
+#print axioms Pyc.C01.WitnessCodec.vkw_roundtrip_pyeq
+#print axioms Pyc.C01.WitnessCodec.vkw_constructed_plain
+#print axioms Pyc.C01.WitnessCodec.vkw_verification_reduced
+#print axioms Pyc.C01.WitnessCodec.ws_roundtrip_constructed
+#print axioms Pyc.C01.WitnessCodec.ws_reencode_constructed
+#print axioms Pyc.C01.WitnessCodec.vkw_same_element
 #print axioms Pyc.C01.WitnessCodec.vkw_extended_truncated
 #print axioms Pyc.C01.WitnessCodec.vkw_other_kept
 #print axioms Pyc.C01.WitnessCodec.vkw_decoder_keeps_payload
@@ -417,3 +495,4 @@ end Pyc.C01.WitnessCodec
 #print axioms Pyc.C01.WitnessCodec.key_json_unvalidated
 #print axioms Pyc.C01.WitnessCodec.key_hash_extended
 #print axioms Pyc.C01.WitnessCodec.exWS_ok
+#print axioms Pyc.C01.WitnessCodec.exArgs_constructed
